@@ -127,7 +127,7 @@ P = D.DesignProperty(
     rule=("case = generated design spec in the reference domain plus an aux seed; candidates = up to n_valid valid sequences, n_perturb "
           "perturbations of each and n_random random well-formed sequences; non-trivial = the candidate set contains both verdicts and "
           "the design has a derived factor, constraint or weight; distinct = distinct spec JSON"),
-    cfg_quick=CFG, n_quick=60, n_thorough=2000, case_limit=(15, 120),
+    cfg_quick=CFG, n_quick=60, n_thorough=700, case_limit=(15, 120),
     limits={"max_T": {"quick": 7, "thorough": 9}, "max_seqs": {"quick": 300, "thorough": 3000},
             "n_valid": {"quick": 6, "thorough": 20}, "n_perturb": {"quick": 4, "thorough": 8}, "n_random": {"quick": 6, "thorough": 20}},
     assumptions=["vp/ref.py implements the documented semantics", "candidates are well-formed as the property requires"])
